@@ -1,5 +1,6 @@
 """C17 - matcher failures fail the test and write nothing."""
 from runner import Prop
+import common
 from common import hx, unhx
 import gen as G
 
@@ -124,7 +125,7 @@ class C17(Prop):
                     want = b"[" + unhx(good[1]["test"]) + b" - " + k_ + b"]"
                     if not any(want in unhx(after[p]) for p in changed):
                         fails.append({"msg": "obs %d: the call after a failing one did not write slot %s" % (good[2], k_.decode())})
-            elif case["meta"]["pre"] and og["outcome"] != "passed" and not og["outcome"].startswith("failed:notfound"):
+            elif case["meta"]["pre"] and og["outcome"] != "passed" and not common.kind_may_be(og["outcome"], "notfound"):
                 fails.append({"msg": "obs %d: the call after a failing one lost its slot: %s" % (good[2], og["outcome"])})
         return fails
 
